@@ -749,7 +749,9 @@ def run(ctx):
         cs = scenario_calls(s)
         scen_ix.append((len(calls), len(cs)))
         calls.extend(cs)
+    t_a = time.time()
     obs = ctx.run_impl("c49_impl.py", {"cases": calls})
+    t_b = time.time()
 
     # ---- tie K: exact correspondence with the Coq model
     terms, owner = [], []
@@ -793,13 +795,14 @@ def run(ctx):
             terms.append(t)
             owner.append(ci)
     bad = ctx.coq_eval_cases("cases", "From PLV Require Import Num.QInfoModel.\nRequire Import ZArith QArith.\nOpen Scope Z_scope.",
-                             terms, "check_case", chunk=max(12, len(terms) // 14 + 1))
+                             terms, "check_case", chunk=max(12, len(terms) // 8 + 1))
     for i in bad:
         c = ties[owner[i]]
         ctx.violation(ckey("corr", c), {"case": c, "implementation": obs[tie_ix[owner[i]]],
                                         "model": "coq/Gen/C49 (check_case false: model differs)"},
                       what=f"{c['op']}: implementation differs from the proved Coq model")
 
+    t_c = time.time()
     # ---- tie-only oracles for the eigenvalue-based quantities
     mp = mp_setup()
     stats = {"rank_deficient": 0, "rel_support_mismatch": 0}
@@ -807,8 +810,16 @@ def run(ctx):
     for s, (k, m) in zip(scen, scen_ix):
         okinds[s["kind"]] = okinds.get(s["kind"], 0) + 1
         for f in check_scenario(mp, s, obs[k:k + m], stats)[:1]:
-            ctx.violation(ckey("direct", s), {"case": s, "observed": obs[k:k + m], "failure": f}, what=f"{s['kind']}: {f}")
+            key = ckey("direct", s)
+            if s["kind"] == "rel_entropy":
+                rho, sigma = decode(s["rho"]), decode(s["sigma"])
+                if crank(rho) < len(rho) or crank(sigma) < len(sigma):
+                    # one stable key for the whole class (see FINDING below): rank-deficient arguments
+                    key = "finding:relative_entropy_rank_deficient"
+                    stats["rel_rank_deficient_failures"] = stats.get("rel_rank_deficient_failures", 0) + 1
+            ctx.violation(key, {"case": s, "observed": obs[k:k + m], "failure": f}, what=f"{s['kind']}: {f}")
     hist["oracle_scenarios"] = okinds
+    ctx.notes.append(f"timing: impl {t_b - t_a:.1f}s, coq tie {t_c - t_b:.1f}s, mpmath oracles {time.time() - t_c:.1f}s")
     hist.update(stats)
     ctx.coverage.update({
         "evaluations": len(terms) + sum(m for _, m in scen_ix),
